@@ -93,7 +93,8 @@ pub fn lex(text: &str) -> Vec<LTok> {
     let mut out = Vec::new();
     let mut i = 0usize;
     // shebang
-    if b.starts_with(b"#!") {
+    if b.starts_with(b"#") {
+        // like the reference (and emmylua) a first line starting with '#' is skipped
         let mut j = 0;
         while j < b.len() && b[j] != b'\n' {
             j += 1;
